@@ -10,7 +10,7 @@ const (
 	Huge   = 3 // total frame size beyond 2 097 151 bytes
 )
 
-var boundaryLens = []int{0, 1, 2, 127, 128, 129, 255, 256, 16383, 16384, 65533, 65534, 65535}
+var boundaryLens = []int{0, 1, 2, 127, 128, 129, 255, 256, 1023, 1024, 4095, 4096, 4097, 8192, 16383, 16384, 32767, 32768, 65533, 65534, 65535}
 
 var U16Pool = []uint32{1, 2, 255, 256, 32767, 32768, 65534, 65535}
 var U32Pool = []uint32{1, 2, 255, 256, 65535, 65536, 1<<31 - 1, 1 << 31, 1<<32 - 2, 1<<32 - 1}
